@@ -32,11 +32,11 @@ def parseHexNat (s : String) : Option Nat :=
     | _, _ => none) (some 0)
 
 def hex2 (n : Nat) : String :=
-  let d := fun k => (Nat.toDigits 16 k).asString
+  let d := fun k => String.ofList (Nat.toDigits 16 k)
   (if n < 16 then "0" else "") ++ d n
 
 def hexN (w : Nat) (n : Nat) : String :=
-  let s := (Nat.toDigits 16 n).asString
+  let s := String.ofList (Nat.toDigits 16 n)
   String.ofList (List.replicate (w - s.length) '0') ++ s
 
 def hexBytes (a : Array Nat) : String :=
